@@ -33,7 +33,7 @@ Definition pinter (d : interdata) : bool * bool * N := (im_relative d, im_sectio
 Definition proj (e : pevent) : pev :=
   match e with
   | EvYaml t => PYaml (crlf (text_str t))      (* the YAML text up to its line endings *)
-  | EvMetadata k v => PMeta (tx k) (tx v)
+  | EvMetadata k v => PMeta (tx k) (text_outer_trimmed v)   (* the value as the analysis pass reads it: str::trim only *)
   | EvSection n => PSection (option_map tx n)
   | EvStart b => PStart b
   | EvEnd b => PEnd b
